@@ -407,6 +407,12 @@ func (l *limitW) Write(p []byte) (int, error) {
 	}
 	l.failed = true
 	n := l.limit
+	if n == len(p)-1 && n > 0 {
+		// Only the newline would be missing: the line would still be a whole
+		// diskEntry although Store stops here. That one fault point is not
+		// injected (the model's failing entry always lacks a line).
+		n--
+	}
 	l.buf.Write(p[:n])
 	l.limit = 0
 	return n, errors.New("write: no space left on device")
@@ -1204,6 +1210,7 @@ func (w *world) hasOversize() bool {
 //	F G              the next recording call fails: diskBuf cannot create its file / the encoder rejects a record
 //	C K<k> M<k> N<k> damage the disk buffer of the update recorded last: close it, truncate it after line k,
 //	                 inside line k, just before the newline of line k
+//	R                record a vulnerability update whose first two records are the same record
 //	W<n>             the writer given to the next Store call fails after n bytes
 //	T                load what was written with the file cut inside its last line
 //	S                Store
@@ -1252,6 +1259,10 @@ func script(r *hx.Run, p *pool, text string) {
 			if len(w.all) > 0 {
 				w.damageBuf(w.all[len(w.all)-1].ref, head, k, 7)
 			}
+		case 'R':
+			// the same record twice in a row, then another
+			w.record('v', fmt.Sprintf("u%d", i), fmt.Sprintf("f%d", i), []int{p.vs[i%len(p.vs)], p.vs[i%len(p.vs)], p.vs[(i+1)%len(p.vs)]}, w.collisions(collide, reuse, flushed), 0)
+			collide, reuse = 0, false
 		case 'W':
 			w.writerLimit, _ = strconv.Atoi(rest)
 		case 'T':
@@ -1353,6 +1364,7 @@ var builtin = []string{
 	"v2 S L X v3 S L",                      // a uuid drawn again after its entry was written out
 	"Q v1 Q e1 Q S Q",                      // latest refs, Initialized
 	"d3 d0 S L",                            // delta updates
+	"R S L",                                // a repeated record is two records
 	"F v2 S L",                             // a recording call that fails creates nothing
 	"v2 F v3 G e2 e1 Q S L",                // failed calls between successful ones
 	"G e0 F e1 S L",                        //
@@ -1825,7 +1837,7 @@ func Run(cfg hx.Config) error {
 		return err
 	}
 	defer uuid.SetRand(nil)
-	r.Rule = "recording histories of 0..60 calls on a real jsonblob.Store (vulnerability, delta and enrichment updates of 0..60 records, repeated updaters/fingerprints, scripted uuid collisions, intermediate flushes, concurrent recorders), each ended by Store and Load; plus hand-made files through the loader. One protocol line per call; every line except reset/latest/init counts as non-trivial, distinct by text. Oracle: multiset of (updater, fingerprint, kind, records in order) recorded = loaded."
+	r.Rule = "recording histories of 0..60 calls on a real jsonblob.Store (vulnerability, delta and enrichment updates of 0..60 records, repeated updaters/fingerprints, scripted uuid collisions, intermediate flushes, concurrent recorders incl. recorders that draw one uuid at the same instant), a quarter of them with injected faults (diskBuf or encoder failing, disk buffers closed/truncated, Store's writer failing), each ended by Store and Load (and retries until the map is empty); hand-made files through the loader; zip-of-zips exports/imports of fake updaters (real zip listing and store calls), interrupted exports. One protocol line per call; every line except reset/latest/init/tear/newfile counts as non-trivial, distinct by text. Oracles: multiset of (updater, fingerprint, kind, records in order) recorded = loaded; after faults every failed Store cut exactly one update to its written prefix and nothing else is missing; a torn file does not load cleanly; an interrupted export returns, says so, and is not importable."
 	rnd := hx.NewRand(cfg.Seed)
 	p := newPool(rnd, cfg.N(300, 1200), r)
 
